@@ -54,6 +54,8 @@ The functions follow the code (file + function):
   or `<!--`; `tokClose`/`inertTok` — the WHATWG tokenizer's script-data states
   (§13.2.5.4, .15–.31, including the escaped / double-escaped states): where does
   `<script>chunk</script>` end the script element.
+* `jsonEscChar`, `jsonStrEncode` — serde_json 1.0 `ser.rs` (`ESCAPE` table): what
+  `JsonSerdeCodec::encode` prints for a string value.
 * `jsonNorm` — JSON text with every string token decoded (`\uXXXX`, pairs) and
   re-escaped minimally: two JSON texts that differ only in how string characters
   are escaped have the same normal form (used for the JSON codec's read-back).
@@ -865,6 +867,25 @@ def jsonStrDecode (s : Str) : Option Str :=
       | some (v, []) => some (joinSurr v)
       | _ => none
     else none
+
+/-- `serde_json` (ser.rs `ESCAPE` table, `format_escaped_str_contents`): one character of a string -/
+def jsonEscChar (c : Nat) : Str :=
+  if c = 34 then [92, 34]
+  else if c = 92 then [92, 92]
+  else if c = 8 then [92, 98]
+  else if c = 9 then [92, 116]
+  else if c = 10 then [92, 110]
+  else if c = 12 then [92, 102]
+  else if c = 13 then [92, 114]
+  else if c < 32 then [92, 117, 48, 48, hexLo (c / 16), hexLo (c % 16)]
+  else [c]
+
+def jsonEncBody : Str → Str
+  | [] => []
+  | c :: cs => jsonEscChar c ++ jsonEncBody cs
+
+/-- `serde_json::to_string(&s)` for a string `s` (= `JsonSerdeCodec::encode`, the codec of `Resource::new`) -/
+def jsonStrEncode (s : Str) : Str := 34 :: (jsonEncBody s ++ [34])
 
 /-! ## UTF-8 (transport between the drivers) -/
 
